@@ -13,6 +13,8 @@ namespace verif
             return new CollSubj<PT, BD, src_fixed>(where, src, maxns, bs);
         if (s == "static")
             return new CollSubj<PT, BD, src_static>(where, src, maxns, bs);
+        if (s == "virtual")
+            return new CollSubj<PT, BD, src_virtual>(where, src, maxns, bs);
         return nullptr;
     }
     template <class PT>
